@@ -1839,6 +1839,10 @@ class RulesMixin:
             if ctx.branch(it.is_none, "isNone"):
                 raise mk_exc(TypeError, "'NoneType' object is not iterable", where=fr.where())
             it = it.value
+        if isinstance(it, SObj):
+            model_q = self.model_for(it.cls)
+            if model_q is not None and hasattr(model_q, "quantify"):
+                return model_q.quantify(self, it, e, g, fr, is_any)
         if isinstance(it, MapValues):
             n = it.m.size if it.m.size is not None else ctx.fresh("n", z3.IntSort())
             elem = None
